@@ -21,6 +21,7 @@ type EntrySpec struct {
 	MaxPaths  int                         `json:"maxpaths"`
 	Replay    string                      `json:"replay"` // "native" (default) | "race" | "model" (no native replay possible; reason in ReplayNote)
 	ReplayNote string                     `json:"replay_note"`
+	RaceTest  string                      `json:"race_test"` // for replay "race": native _test.go (TestVerifRace) run under go test -race
 	Workers   int                         `json:"workers"`
 	ConcCap   int                         `json:"conc_cap"`
 	MaxWallS  map[string]int              `json:"max_wall_s"`
@@ -264,7 +265,13 @@ func cmdCheck(args []string) int {
 				writeModelOnly(dir, e.Fn, v, params, e.ReplayNote)
 				return dir, "model-only"
 			}
-			ok, out := replayNativeMode(ld, u.Unit, e.Fn, v, params, dir, mode == "race")
+			var ok bool
+			var out string
+			if mode == "race" {
+				ok, out = replayRace(ld, u.Unit, e.Fn, v, params, dir, e.RaceTest)
+			} else {
+				ok, out = replayNativeMode(ld, u.Unit, e.Fn, v, params, dir, false)
+			}
 			lastOut = out
 			if ok {
 				return dir, "reproduced"
